@@ -45,6 +45,20 @@ class TLSPipe:
         self.eof_when_drained = False
         self.auto_close_reply = True
         self.sut_eof = False
+        # optional arrival schedule: [(virtual time, cumulative number of bytes of the peer->SUT stream that may have
+        # reached the SUT's socket by then)], strictly increasing in both; None = everything is delivered at once
+        self.release_schedule: list[tuple[float, int]] | None = None
+
+    def allowed(self) -> int:
+        if self.release_schedule is None:
+            return 1 << 60
+        return max([c for (t, c) in self.release_schedule if t <= self.world.now + 1e-12], default=0)
+
+    def next_release(self) -> float | None:
+        if self.release_schedule is None:
+            return None
+        later = [t for (t, c) in self.release_schedule if t > self.world.now + 1e-12 and c > self.delivered]
+        return min(later) if later else None
 
     def pump(self) -> bool:
         """one environment step; True if anything moved"""
@@ -77,6 +91,7 @@ class TLSPipe:
             n = max(1, self.frag[self.deliveries % len(self.frag)])
             if self.cut_at is not None:
                 n = min(n, self.cut_at - self.delivered)
+            n = min(n, self.allowed() - self.delivered)
             if n > 0:
                 try:
                     sent = self.harness_sock.send(bytes(self.to_sut[:n]))
@@ -181,6 +196,14 @@ class TLSSelector(selectors.BaseSelector):
                 return ready
             if not moved:
                 if self.pipe.tcp and self._settle():
+                    continue
+                nxt = self.pipe.next_release()
+                if nxt is not None and (timeout is None or nxt <= w.now + timeout):
+                    # sleep (virtual time) until the next piece of the stream arrives
+                    if timeout is not None:
+                        timeout -= nxt - w.now
+                    w.total_waited += nxt - w.now
+                    w.now = nxt
                     continue
                 if timeout is None:
                     raise HarnessHang("TLS transport waits although neither side has anything in flight")
